@@ -119,9 +119,15 @@ impl Cx<'_> {
         }
     }
     pub fn violation(&mut self, signature: impl Into<String>, detail: impl Into<String>, witness: Value) {
+        let mut detail: String = detail.into();
+        if detail.len() > 600 {
+            let cut = (0..=600).rev().find(|i| detail.is_char_boundary(*i)).unwrap_or(0);
+            detail.truncate(cut);
+            detail.push_str("...");
+        }
         let v = Violation {
             signature: signature.into(),
-            detail: detail.into(),
+            detail,
             index: self.index,
             witness,
         };
@@ -188,6 +194,12 @@ pub trait Check: Sync {
     fn child_env(&self) -> Vec<(String, String)> {
         vec![]
     }
+    /// A check whose cases need differently built binaries (C14: `MAX_CHUNK_SIZE` is a compile-time
+    /// constant of the self_encryption crate) names the executable per case index; it must depend
+    /// on `index % 2` only, so that with an even shard count every shard uses one executable.
+    fn exe_for_index(&self, _index: u64) -> Option<PathBuf> {
+        None
+    }
 }
 
 pub struct Opts {
@@ -223,6 +235,16 @@ fn journal_path(id: &str, shard: usize) -> PathBuf {
 /// Child: run this shard's cases and write the report.
 pub fn run_shard(check: &dyn Check, o: &Opts) -> i32 {
     let (shard, nshards) = o.shard.unwrap_or((0, 1));
+    if let Some(i) = o.only_index {
+        // a single case (replay) that belongs to the other build: hand over to that executable
+        if let Some(want) = check.exe_for_index(i) {
+            let cur = std::env::current_exe().ok().and_then(|p| p.canonicalize().ok());
+            if want.canonicalize().ok() != cur && std::env::var_os("VERIF_NO_REEXEC").is_none() {
+                let st = std::process::Command::new(&want).args(std::env::args().skip(1)).env("VERIF_NO_REEXEC", "1").status();
+                return st.ok().and_then(|s| s.code()).unwrap_or(2);
+            }
+        }
+    }
     let total = o.cases_override.unwrap_or_else(|| check.cases(o.tier));
     let start = Instant::now();
     let budget = check.shard_budget(o.tier);
@@ -335,7 +357,8 @@ pub fn run_parent(check: &dyn Check, o: &Opts) -> i32 {
     for shard in 0..nshards {
         let out = dir.join(format!("shard-{shard}.json"));
         let _ = std::fs::remove_file(&out);
-        let mut cmd = std::process::Command::new(&exe);
+        let shard_exe = check.exe_for_index(shard as u64).unwrap_or_else(|| exe.clone());
+        let mut cmd = std::process::Command::new(&shard_exe);
         cmd.arg(id)
             .arg("--tier")
             .arg(o.tier.as_str())
